@@ -359,7 +359,7 @@ class ReaderDomain(TermDomain):
 
 def byte_values(bodies, tier):
     """Quick tier: one representative of every interval of byte values that no comparison constant of the reader separates,
-    every comparison constant and all ten digits; thorough tier: all 256 values."""
+    every comparison constant, all ten digits and the bytes + - . E e of the specified alphabet; thorough tier: all 256 values."""
     if tier == "thorough":
         return list(range(256))
     consts = set()
@@ -377,7 +377,9 @@ def byte_values(bodies, tier):
                 for v, _ in t["targets"]:
                     consts.add(int(v))
     cuts = sorted({0, 256} | {c for c in consts} | {c + 1 for c in consts})
-    vals = set(range(48, 58)) | {c for c in consts if 0 <= c < 256}
+    # the specified alphabet is tried whatever the reader compares against: a reader that no longer mentions 'E' must
+    # still be asked about 'E' (seeded C01-16)
+    vals = set(range(48, 58)) | {43, 45, 46, 69, 101} | {c for c in consts if 0 <= c < 256}
     for a, b in zip(cuts, cuts[1:]):
         if a < 256:
             vals.add(a)
